@@ -29,8 +29,10 @@ Brk     == {"CR", "LF", "CRLF"}
 
 VARIABLES lines, eols,      \* the client's (= reference) document
           pl, pe,           \* the document before the last action
-          edit              \* the last action with its parameters
-vars == <<lines, eols, pl, pe, edit>>
+          edit,             \* the last action with its parameters
+          disk,             \* the file on disk: [tl, te] (what a re-opened document shows)
+          nstep             \* number of actions taken
+vars == <<lines, eols, pl, pe, edit, disk, nstep>>
 
 ---------------------------------------------------------------------------
 (* Value domains                                                           *)
@@ -109,6 +111,7 @@ CharApply(L, E, sl, sc, el, ec, t) ==
 Init == /\ \E d \in Docs(InitLines) : lines = d.tl /\ eols = d.te
         /\ pl = lines /\ pe = eols
         /\ edit = [k |-> "open"]
+        /\ disk = [tl |-> lines, te |-> eols] /\ nstep = 0
 
 Small == /\ Len(lines) <= MaxLines
          /\ \A i \in 1..Len(lines) : Len(lines[i]) <= MaxCols
@@ -118,6 +121,7 @@ ChangeFull ==
     /\ lines' = t.tl /\ eols' = t.te
     /\ pl' = lines /\ pe' = eols
     /\ edit' = [k |-> "full", tl |-> t.tl, te |-> t.te]
+    /\ disk' = disk /\ nstep' = nstep + 1
 
 ChangeRange ==
   \E sl \in 1..Len(lines) : \E el \in sl..Len(lines) :
@@ -128,6 +132,7 @@ ChangeRange ==
     /\ eols'  = ApplyEols(eols, sl, el, t)
     /\ pl' = lines /\ pe' = eols
     /\ edit' = [k |-> "range", sl |-> sl - 1, sc |-> sc, el |-> el - 1, ec |-> ec, tl |-> t.tl, te |-> t.te]
+    /\ disk' = disk /\ nstep' = nstep + 1
 
 SplitPairEdit ==
   \E sl \in 1..Len(lines) : \E el \in sl..Len(lines) :
@@ -137,14 +142,28 @@ SplitPairEdit ==
     /\ LET r == CharApply(lines, eols, sl, sc, el, ec, t) IN lines' = r.tl /\ eols' = r.te
     /\ pl' = lines /\ pe' = eols
     /\ edit' = [k |-> "splitpair", sl |-> sl - 1, sc |-> sc, el |-> el - 1, ec |-> ec, tl |-> t.tl, te |-> t.te]
+    /\ disk' = disk /\ nstep' = nstep + 1
+
+\* the client saves: the file on disk becomes the document
+Save == /\ disk' = [tl |-> lines, te |-> eols]
+        /\ UNCHANGED <<lines, eols>> /\ pl' = lines /\ pe' = eols
+        /\ edit' = [k |-> "save"] /\ nstep' = nstep + 1
+\* the client closes the document without saving and opens it again: it shows the file on disk
+Reopen == /\ lines' = disk.tl /\ eols' = disk.te
+          /\ pl' = lines /\ pe' = eols
+          /\ edit' = [k |-> "reopen", prev |-> edit] /\ disk' = disk /\ nstep' = nstep + 1
 
 \* one named disjunct per action so that TLC's coverage report is per action
 DoFull      == ChangeFull /\ Small'
 DoRange     == ChangeRange /\ Small'
 DoSplitPair == SplitPairEdit /\ Small'
-Next == DoFull \/ DoRange \/ DoSplitPair
+Next == DoFull \/ DoRange \/ DoSplitPair \/ Save \/ Reopen
 
 Spec == Init /\ [][Next]_vars
+\* model-checking specification: the file on disk stays the initial document (Save multiplies
+\* the state space by the number of documents without adding behaviour to the edit laws)
+NextMC == DoFull \/ DoRange \/ DoSplitPair \/ Reopen
+SpecMC == Init /\ [][NextMC]_vars
 
 ---------------------------------------------------------------------------
 (* Properties                                                              *)
@@ -185,7 +204,12 @@ StructuredIsCharLevel ==
 SplitFlatRoundTrip == LET r == Split(Flat(lines, eols)) IN r.tl = lines /\ r.te = eols
 
 \* generator specification: every document as initial state, exactly one action
-NextOne == edit.k = "open" /\ Next
+NextOne == nstep = 0 /\ (DoFull \/ DoRange \/ DoSplitPair)
 SpecOne == Init /\ [][NextOne]_vars
-View == <<lines, eols>>
+\* generator: one edit, then close-without-saving and re-open (the edit must be forgotten)
+NextTwo == \/ nstep = 0 /\ (DoFull \/ DoRange)
+           \/ nstep = 1 /\ Reopen
+SpecTwo == Init /\ [][NextTwo]_vars
+ReopenShowsDisk == [][edit'.k = "reopen" => (lines' = disk.tl /\ eols' = disk.te)]_vars
+View == <<lines, eols, disk>>
 =============================================================================
